@@ -402,6 +402,7 @@ pub fn open_loop(run: &mut Run, cfg: &SCfg, t0: u64, iters: usize, clears: bool,
         let rd = match pl.readable { Poll::Yes => "r", Poll::No => "n", Poll::Fails => "e" };
         let envs = if pl.env.is_empty() { "-".to_string() } else { pl.env.iter().map(SockEnv::token).collect::<Vec<_>>().join(",") };
         let req = format!("stack it {} {} {rd} {} {envs}", inj_tokens(&pl.injs), pl.dt, dgram_token(&pl.dgram));
+        crate::util::inflight(&format!("{ctx} | {req}"));
         run.count("op:it");
         // --- send
         simsock::clear_ops();
@@ -655,6 +656,7 @@ pub fn closed_loop(run: &mut Run, cfg: &SCfg, t0: u64, dts: &[u64], fault: Optio
     let published: Rc<RefCell<Vec<(usize, String, Option<usize>)>>> = Rc::new(RefCell::new(vec![]));
     let pubs = published.clone();
     let st3 = state.clone();
+    crate::util::inflight(&format!("{ctx} | closed loop dts={dts:?}"));
     let r = guarded(|| {
         tracer.verif_run_with::<SimSocket, _>(cfg.src, |round: &Round<'_>| {
             let id = round.probes.iter().find_map(|p| match p {
